@@ -254,6 +254,59 @@ def imhValues (ratio : σ → α) (f : σ → α) (inSupport : σ → Bool) (mcS
     if rest.length < mcSamples ∨ lus.length < mcSamples then none else
     some (imhRecorded ratio f burnIn b0 ((rest.take mcSamples).zip (lus.take mcSamples)))
 
+/-! ### a density that vanishes on part of the proposal's support
+
+`density.log_prob(b) = -inf` for a proposal `b` outside the density's support is the situation
+`find_initial_sample` exists for.  In the loop such a proposal has `cur_ratio = -inf`; it is never accepted
+(`-inf - last_ratio > log u` is false, also for `u = 0`).  What happens to the BOOK-KEEPING differs:
+
+* pinned tree: `cur_ratio = accept * cur_ratio + (~accept) * last_ratio` is `0 · (-inf) + 1 · last_ratio = NaN`;
+  `last_ratio` is NaN from then on and no comparison with NaN holds: every later proposal is rejected — the
+  chain is frozen at the state it had (finding `C19.imh.ninf_ratio_poisons_chain`);
+* repaired (`fixes/C19-imh-ninf-ratio.diff`, `torch.where(accept, cur_ratio, last_ratio)`): `last_ratio` stays the
+  ratio of the state the chain is in.
+
+`ratio b = none` stands for `-inf`; the start lies in the support (ratio `r0` finite). -/
+
+/-- the log-ratio the loop carries: a number, or NaN (pinned tree only) -/
+inductive LR (α : Type) where
+  | fin (r : α)
+  | nan
+deriving Repr
+
+/-- one step; `poison = true`: the pinned arithmetic blend, `false`: the repaired `torch.where` -/
+def imhStepS (poison : Bool) (ratio : σ → Option α) (last : σ) (lastR : LR α) (cur : σ)
+    (lu : Option α) : σ × LR α :=
+  match lastR with
+  | .nan => (last, .nan)               -- `x - NaN > log u` is false, `0 · x + 1 · NaN = NaN`
+  | .fin r =>
+    match ratio cur with
+    | none => (last, if poison then .nan else .fin r)
+    | some c =>
+      let accept : Bool := match lu with
+        | none => true
+        | some l => decide (l < c - r)
+      (if accept then cur else last, .fin (if accept then c else r))
+
+/-- the chain states, one per step -/
+def imhChainS (poison : Bool) (ratio : σ → Option α) : σ → LR α → List (σ × Option α) → List σ
+  | _, _, [] => []
+  | last, lastR, (cur, lu) :: rest =>
+    let s := imhStepS poison ratio last lastR cur lu
+    s.1 :: imhChainS poison ratio s.1 s.2 rest
+
+/-- state and carried log-ratio after a list of steps -/
+def imhAfterS (poison : Bool) (ratio : σ → Option α) : σ → LR α → List (σ × Option α) → σ × LR α
+  | last, lastR, [] => (last, lastR)
+  | last, lastR, (cur, lu) :: rest =>
+    let s := imhStepS poison ratio last lastR cur lu
+    imhAfterS poison ratio s.1 s.2 rest
+
+/-- the recorded values `f b_t`, `t ≥ burn_in`, of a chain started at `b0` with finite log-ratio `r0` -/
+def imhRecordedS (poison : Bool) (ratio : σ → Option α) (f : σ → α) (burnIn : Nat) (b0 : σ) (r0 : α)
+    (steps : List (σ × Option α)) : List α :=
+  ((imhChainS poison ratio b0 (.fin r0) steps).drop burnIn).map f
+
 end IMH
 
 /-! ## Relaxed distributions (`_straight_through.py`), generic in `exp`/`log` -/
